@@ -65,11 +65,11 @@ class Bucket(object):
         self.writer.save_recording(r)
         self.ids[r.id] = instant
 
-    def lookup(self, now, start, end):
+    def lookup(self, now, start, end, **kw):
         _Clock.now = now
         self.writer.verif_store.now = now
         try:
-            got = list(self.reader.iter_recording_ids('Cat', start_date=start, end_date=end))
+            got = list(self.reader.iter_recording_ids('Cat', start_date=start, end_date=end, **kw))
         except Exception as ex:  # noqa
             return 'raised %r' % (ex,)
         return got
@@ -140,6 +140,21 @@ def grid_check(rep, states):
             rep.note_behaviour((mode, st['s'], st['e'], st['now']), nt)
             if len(rep.samples) < 3 and nt:
                 rep.sample({'mode': mode, 'start_h': st['s'], 'end_h': st['e'], 'now_h': st['now'], 'expected_found': len(exp)})
+            # the same window with a limit / random order / a metadata filter: a duplicate-free subset of the window of
+            # exactly min(limit, matches) ids (several day folders are read round-robin, each with its own copy of the limit)
+            if nt and (st['s'] + st['e'] + st['now']) % 3 == 0:
+                for kw in ({'limit': 2}, {'limit': 3, 'random_results': True}, {'metadata': {'m': 1}, 'limit': 1},
+                           {'metadata': {'m': [2, None]}}):
+                    g2 = b.lookup(_hours(st['now']), start, end, **kw)
+                    rep.evaluations += 1
+                    want = exp if kw.get('metadata', {}).get('m', 1) == 1 else set()
+                    n = min(kw.get('limit', 10 ** 6), len(want))
+                    if isinstance(g2, str) or not set(g2) <= want or len(set(g2)) != n or len(g2) != len(set(g2)):
+                        rep.violation({'summary': 'window mode=%s start=%s end=%s now=%s with %s: got %s, expected %d of the %d in the window'
+                                                  % (mode, start, end, _hours(st['now']), kw,
+                                                     g2 if isinstance(g2, str) else '%d ids (%d distinct, %d outside)' % (len(g2), len(set(g2)), len(set(g2) - want)),
+                                                     n, len(want)), 'signature': None},
+                                      replay={'kind': 'grid', 'state': {k: st[k] for k in ('mode', 's', 'e', 'now')}, 'hour': bool(st.get('hour'))})
             if isinstance(got, str) or set(got) != exp or len(got) != len(set(got)):
                 gs = set(got) if not isinstance(got, str) else set()
                 rep.violation({'summary': 'window mode=%s start=%s end=%s now=%s: missed %s, outside %s, duplicates %s%s'
